@@ -72,7 +72,7 @@ def work_logic(lname):
 def _decide_chunk(job):
     lname, argstrs, optsets = job[:3]
     import time as _time
-    deadline = _time.time() + (job[3] if len(job) > 3 else 10 ** 9)      # wall-clock budget of the chunk: what is not reached is not counted
+    deadline = job[3] if len(job) > 3 else 10 ** 12      # absolute wall-clock deadline of the bounded part: what is not reached is not counted
     from pytableaux.lang import Argument
     from bounded import prover as P, args as A_
     logic = RS.registry()(lname)
@@ -114,14 +114,18 @@ def bounded_decide(ctx):
         else:
             sample = small + rnd.sample(mid, 40) + [A.random_argument(rnd, 'prop', depth=3, max_premises=1).argstr() for _ in range(10)]
         for i in range(0, len(sample), 200):
-            jobs.append((L, sample[i:i + 200], OPTS, 600 if ctx.thorough else 120))
+            jobs.append((L, sample[i:i + 200], OPTS))
+    import time as _time
+    deadline = _time.time() + (2400 if ctx.thorough else 240)
+    rnd.shuffle(jobs)                                  # so that a run that meets its deadline has sampled every logic
+    jobs = [j + (deadline,) for j in jobs]
     total = 0; fails = []
     for n, out in pmap(_decide_chunk, jobs):
         total += n; fails += out
     distinct = min(len({(j[0], a) for j in jobs for a in j[1]}), total)      # pairs actually evaluated (a chunk may stop at its time budget)
     ctx.bounded_part(evaluations=total, distinct_nontrivial=distinct,
                      rule='propositional arguments (exhaustive up to 1 connective, sampled/exhaustive up to 2, seeded random deeper) x 57 logics, option combinations rotated; verdict of the real prover vs truth-table validity computed from spec/; distinct = distinct (logic, argument) pairs',
-                     bound=('exhaustive <= 2 connectives + 150 random depth<=4 per logic, in chunks of 200 arguments that stop after 600 s each (evaluations counts what was actually run)' if ctx.thorough else 'exhaustive <= 1 connective + 40 sampled of <= 2 + 10 random depth<=3 per logic; harness caps (1500 steps / 1.5 s) are skipped, not counted as verdicts; a chunk of 200 arguments stops after 120 s'),
+                     bound=('exhaustive <= 2 connectives + 150 random depth<=4 per logic, in shuffled chunks of 200 arguments under a 2400 s deadline (evaluations counts what was actually run)' if ctx.thorough else 'exhaustive <= 1 connective + 40 sampled of <= 2 + 10 random depth<=3 per logic; harness caps (1500 steps / 1.5 s) are skipped, not counted as verdicts; the whole stand-in stops at a 240 s deadline (chunks are shuffled so every logic is sampled)'),
                      samples=[dict(logic='K3', argument=small[5]), dict(logic='S4', argument=mid[100])] + fails[:3], label='decide')
     for f in fails:
         ctx.bounded_failure(f"C03.decide.{f['logic']}", f"prover says {f['outcome']} but truth-table validity is {f['truth_table_valid']} for {f['argument']} with {f['options']}", f, instance=f['argument'])
